@@ -61,6 +61,21 @@ def lifecycle(rnd):
             {"c": "init", "vs": [1, 2]}, {"c": "get_meta"}]
 
 
+def full_tree():
+    """the sequential batch on a tree whose leaf count has reached the capacity: removal-only batches still apply,
+    batches with leaves are refused - on both surfaces alike (small tree and the real depth)"""
+    sc = []
+    for d in (3, 20):
+        last = (1 << d) - 1
+        sc += [{"c": "reset", "d": d}, {"c": "set", "i": 2, "v": 6}, {"c": "set", "i": last, "v": 9}, {"c": "leaves_set"},
+               {"c": "seqbatch", "vs": [], "rem": [2]}, {"c": "get_root"}, {"c": "get_leaf", "i": 2},
+               {"c": "seqbatch", "vs": [5], "rem": []}, {"c": "get_root"},
+               {"c": "seqbatch", "vs": [5], "rem": [2]}, {"c": "get_root"},
+               {"c": "override", "s": 1, "vs": [], "rem": [1, 2]}, {"c": "get_root"},
+               {"c": "seqbatch", "vs": [], "rem": [0, 7]}, {"c": "get_root"}, {"c": "leaves_set"}]
+    return sc
+
+
 def stateless_calls(rnd):
     sc = []
     for n in (0, 1, 135, 136, 137, 500):
@@ -134,6 +149,7 @@ def run_c11(tier, out):
         op.pop("probe", None)
     sc += from_tree_ops(big, rnd, 20)
     sc += lifecycle(rnd)
+    sc += full_tree()
     sc += [{"c": "reset", "d": 20}] + stateless_calls(rnd)
     for op in malformed(rnd):
         sc += [{"c": "reset", "d": 20}, {"c": "set", "i": 1, "v": 4}, op, {"c": "get_root"}]     # (an API panic ends a history: one each)
